@@ -1,6 +1,7 @@
 package jsonrpc2
 
 import (
+	"io"
 	"context"
 	"errors"
 	"fmt"
@@ -626,6 +627,15 @@ func zzConnReaderResponse() {
 		id = Int64ID(31337) // late or unknown
 	}
 	resp := &Response{ID: id, Result: []byte("payload")}
+	// how reading ends: a transport error, a clean end of input (the peer closed its side or vanished), or either
+	// wrapped by the transport
+	readErr := zzErrRead
+	switch vChoice("readEndsWith", 3) {
+	case 1:
+		readErr = io.EOF
+	case 2:
+		readErr = fmt.Errorf("transport: %w", io.EOF)
+	}
 	g.onPost = func() {
 		// whoever is completed with this response object is the call it answers
 		if g.mine.response == resp {
@@ -637,14 +647,20 @@ func zzConnReaderResponse() {
 		if g.sections == 2 {
 			// the reader's exit section: nothing stays tracked, reading is over, the error is recorded
 			s := &g.c.state
-			vAssert(!s.reading && s.readErr == zzErrRead && len(s.outgoingCalls) == 0, "C01.reader-exit-state")
+			vAssert(!s.reading && s.readErr == readErr && len(s.outgoingCalls) == 0, "C01.reader-exit-state")
 			ret := zzRetired(g.mine)
 			vAssert(ret, "C01.no-call-left-pending-after-reader-exit")
+			// with the reader gone no cancellation can arrive and no answer is likely to leave: every request still in
+			// flight is cancelled, however reading ended — otherwise a parked handler (a subscriptions/listen, a slow
+			// tool) keeps the connection from ever becoming idle, and Wait/disconnect never happen (C05, C18)
+			if g.hOtherReqIn {
+				vAssert(g.otherReq.ctx.Err() != nil, "C05.reader-exit-cancels-every-request-still-in-flight")
+			}
 		}
 	}
 	g.install()
 	vShared(g.mine, g.mine.ready)
-	rd := &zzReader{msgs: []Message{resp}, err: zzErrRead}
+	rd := &zzReader{msgs: []Message{resp}, err: readErr}
 	g.c.readIncoming(context.Background(), rd, nil)
 	vAssert(g.sections == 2, "C01.reader-sections")
 	vAssert(g.mineDone, "C01.no-call-left-pending-after-reader-exit")
